@@ -59,8 +59,12 @@ def cursor(h, raw, default=None):
     """The bit cursor of a raw-packet object as the program itself would read it (`raw.pos`): an instance attribute, a class
     default, or a property with a backing field."""
     it = getattr(h, "it", h)
-    from .interp import Raised
+    from .interp import Raised, _ACTIVE
     from .core import Unsupported
+    if it is None:
+        it = _ACTIVE[-1] if _ACTIVE else None
+    if it is None or raw is None:
+        return default
     try:
         v = it.getattr(raw, "pos", None)
     except (Raised, Unsupported):
